@@ -33,8 +33,12 @@ def analyse(ctx, prog):
     FIRST = ("sym", "distinct:first")
     SRC = ("g", "poll_sources")
 
+    DLM = prog.const("REPROC_DEADLINE")
+
     def o_expiry(I, fn, n, args, st):
-        return [(st, fs(FIRST))]
+        a = st.copy()
+        a.mon["expired"] = True
+        return [(st, fs(FIRST)), (a, fs(DLM))]
 
     def o_fed(I, fn, n, args, st):
         return [(st, fs(0))]
@@ -114,10 +118,23 @@ def poll_rules(ctx, prog):
            not derefs, {"dereferences": [site_of(e[1], e[2]) for e in derefs][:3]}, nontrivial=True)
     seen = set()
     nreq = 0
+    EVD = prog.const("REPROC_EVENT_DEADLINE")
     for st, rv in res.exits:
         shape_label, layout, mask = st.mon["case"]
         pp = st.mon.get("ppoll", "not called")
         hidx = layout.index("H")
+        if st.mon.get("expired"):
+            evs0 = [st.mem.get(("f", ("i", SRC, i), "events")) for i in range(len(layout))]
+            key0 = ("expired", layout, tuple(show(e) for e in evs0), show(rv))
+            if key0 not in seen:
+                seen.add(key0)
+                nz = sum(1 for e in evs0 if e != fs(0))
+                ok = rv == fs(1) and nz == 1 and evs0[0] == fs(I.abs_int(EVD)) and pp == "not called"
+                ctx.ob("C09.V3d", "reproc_poll [sources %s | a deadline has expired]" % "/".join("handle" if x == "H" else "no process" for x in layout),
+                       "when a deadline has already expired exactly one source reports an event - only the deadline event - every other "
+                       "source's (stale) events are cleared, and the return value is 1", ok,
+                       {"events": [show(e) for e in evs0], "returns": show(rv)}, nontrivial=True)
+            continue
         hv = {name: st.mem.get(A.fcell("pipe", name)) for name in SLOTS}
         # ---- what must have been requested
         want_req = []
